@@ -1,0 +1,6 @@
+//go:build !verif
+
+package cl
+
+// verifStep is a no-op without the verif build tag.
+func verifStep() {}
